@@ -433,6 +433,26 @@ def validate_det(ctx, rows, by_rid):
     return accepted, len(suspects)
 
 
+def run_stage(ctx, binary, args, timeout=3000):
+    """run one driver stage; a request that does not finish (overloaded box / rare wedge: the driver cannot tell) is
+    retried once - the goroutine stacks of the first attempt are kept as replay/C09-timeout-stacks.txt"""
+    for attempt in (1, 2):
+        p = ctx.run_bin(binary, args, timeout=timeout, check=False)
+        if p.returncode == 0:
+            return p
+        if "did not finish within" in p.stderr and attempt == 1:
+            src = ctx.path("planx-timeout-stacks.txt")
+            if os.path.exists(src):
+                os.makedirs(lib.REPLAY, exist_ok=True)
+                shutil.copy(src, os.path.join(lib.REPLAY, "C09-timeout-stacks.txt"))
+            ctx.notes.append("driver stage %s: %s -- retried once" % (args[1], p.stderr.strip().splitlines()[-1][:300]))
+            ctx.log("a request did not finish; retrying the stage once")
+            continue
+        print(p.stdout[-2000:])
+        print(p.stderr[-4000:])
+        raise lib.Inconclusive("harness planx exited %d" % p.returncode)
+
+
 # ------------------------------------------------------------------------------------------ main
 def model_check(ctx, quick):
     ctx.tlc_must_pass("resolve", "MC_PlanCache", "MC_PlanCache_3.cfg" if quick else "MC_PlanCache_4.cfg", timeout=1500,
@@ -495,7 +515,7 @@ def run_replay(ctx, binary):
     if case.get("mode") == "slow":
         ip, ep, rp = ctx.path("replay.ndjson"), ctx.path("replay-events.ndjson"), ctx.path("replay-res.ndjson")
         lib.write_ndjson(ip, [{"id": "replay", "o": case["oset"], "slow": case["slow"], "r": case["history"][0]}])
-        ctx.run_bin(binary, ["-mode", "slow", "-in", ip, "-out", ep, "-res", rp], timeout=600)
+        run_stage(ctx, binary, ["-mode", "slow", "-in", ip, "-out", ep, "-res", rp], timeout=600)
         rows = lib.read_ndjson(ep)
         acc, _ = validate_hist(ctx, rows, lib.read_ndjson(rp), "replay", cfg="Trace_PlanCache_gated.cfg")
         ctx.coverage.update({"traces_validated_against_impl": acc, "evaluations": len(rows), "distinct_nontrivial": 1,
@@ -504,7 +524,7 @@ def run_replay(ctx, binary):
         pair = {"id": "replay", "o": case["oset"], "traced": case["mode"] == "traced", "a": case["history"][0], "b": case["history"][1]}
         ip, ep, rp = ctx.path("replay.ndjson"), ctx.path("replay-events.ndjson"), ctx.path("replay-res.ndjson")
         lib.write_ndjson(ip, [pair])
-        ctx.run_bin(binary, ["-mode", "gated", "-in", ip, "-out", ep, "-res", rp], timeout=600)
+        run_stage(ctx, binary, ["-mode", "gated", "-in", ip, "-out", ep, "-res", rp], timeout=600)
         rows = lib.read_ndjson(ep)
         acc, _ = validate_hist(ctx, rows, lib.read_ndjson(rp), "replay", cfg="Trace_PlanCache_gated.cfg")
         ctx.coverage.update({"traces_validated_against_impl": acc, "evaluations": len(rows), "distinct_nontrivial": 1,
@@ -513,7 +533,7 @@ def run_replay(ctx, binary):
         hist = {"id": "replay", "osets": [case["oset"]], "reqs": case["history"]}
         ip, ep, rp = ctx.path("replay.ndjson"), ctx.path("replay-events.ndjson"), ctx.path("replay-res.ndjson")
         lib.write_ndjson(ip, [hist])
-        ctx.run_bin(binary, ["-mode", "hist", "-in", ip, "-out", ep, "-res", rp], timeout=600)
+        run_stage(ctx, binary, ["-mode", "hist", "-in", ip, "-out", ep, "-res", rp], timeout=600)
         rows = lib.read_ndjson(ep)
         acc, _ = validate_hist(ctx, rows, lib.read_ndjson(rp), "replay")
         ctx.coverage.update({"traces_validated_against_impl": acc, "evaluations": len(rows), "distinct_nontrivial": 1,
@@ -526,7 +546,7 @@ def run_replay(ctx, binary):
         rows = []
         for proc in (1, 2, 3):
             op = ctx.path("replay-plans-%d.ndjson" % proc)
-            ctx.run_bin(binary, ["-mode", "det", "-in", ip, "-out", op, "-n", "8", "-proc", str(proc)], timeout=600)
+            run_stage(ctx, binary, ["-mode", "det", "-in", ip, "-out", op, "-n", "8", "-proc", str(proc)], timeout=600)
             rows += lib.read_ndjson(op)
         acc, _ = validate_det(ctx, rows, {"replay": req})
         ctx.coverage.update({"traces_validated_against_impl": acc, "evaluations": len(rows), "distinct_nontrivial": 1,
@@ -567,7 +587,7 @@ def run(ctx):
     # ---- 3. replay
     ip, ep, rp = ctx.path("hist.ndjson"), ctx.path("events.ndjson"), ctx.path("results.ndjson")
     lib.write_ndjson(ip, hist_in)
-    ctx.run_bin(binary, ["-mode", "hist", "-in", ip, "-out", ep, "-res", rp, "-workers", "8"], timeout=3000)
+    run_stage(ctx, binary, ["-mode", "hist", "-in", ip, "-out", ep, "-res", rp, "-workers", "8"], timeout=3000)
     rows = lib.read_ndjson(ep)
     details = lib.read_ndjson(rp)
     nreq = sum(1 for r in rows if r["ev"] == "req")
@@ -591,7 +611,7 @@ def run(ctx):
                 gated_in.append({"id": "g%04d-%d-%d" % (i, o, int(traced)), "o": o, "traced": traced, "a": concrete(a), "b": concrete(b)})
     gp, gep, grp = ctx.path("gated.ndjson"), ctx.path("gated-events.ndjson"), ctx.path("gated-results.ndjson")
     lib.write_ndjson(gp, gated_in)
-    ctx.run_bin(binary, ["-mode", "gated", "-in", gp, "-out", gep, "-res", grp, "-workers", "8"], timeout=3000)
+    run_stage(ctx, binary, ["-mode", "gated", "-in", gp, "-out", gep, "-res", grp, "-workers", "8"], timeout=3000)
     grows = lib.read_ndjson(gep)
     gdet = lib.read_ndjson(grp)
     unreal = [d for d in gdet if d.get("unrealised")]
@@ -612,7 +632,7 @@ def run(ctx):
                     slow_in.append({"id": "s%d-%d-%d-%s" % (sid, d, o, sub), "o": o, "slow": sub, "r": r})
     sp, sep, srp = ctx.path("slow.ndjson"), ctx.path("slow-events.ndjson"), ctx.path("slow-results.ndjson")
     lib.write_ndjson(sp, slow_in)
-    ctx.run_bin(binary, ["-mode", "slow", "-in", sp, "-out", sep, "-res", srp], timeout=3000)
+    run_stage(ctx, binary, ["-mode", "slow", "-in", sp, "-out", sep, "-res", srp], timeout=3000)
     srows = lib.read_ndjson(sep)
     sdet = lib.read_ndjson(srp)
     sunreal = [d for d in sdet if d.get("unrealised")]
@@ -651,7 +671,7 @@ def run(ctx):
     det_rows = []
     for proc in (1, 2, 3):
         op = ctx.path("plans-%d.ndjson" % proc)
-        ctx.run_bin(binary, ["-mode", "det", "-in", dp, "-out", op, "-n", str(nfresh), "-proc", str(proc), "-workers", "8"], timeout=3000)
+        run_stage(ctx, binary, ["-mode", "det", "-in", dp, "-out", op, "-n", str(nfresh), "-proc", str(proc), "-workers", "8"], timeout=3000)
         det_rows += lib.read_ndjson(op)
     acc_d, nsus = validate_det(ctx, det_rows, by_rid)
     ctx.log("determinism: %d plannings (%d requests x option sets x %d fresh engines x 3 processes), %d accepted by TLC, %d inconsistent groups" % (
